@@ -13,7 +13,8 @@ pub fn garbage(seed: u64, f: u64, i: u64) -> u64 {
     z = (z ^ (z >> 30)).wrapping_mul(0xbf58_476d_1ce4_e5b9);
     z = (z ^ (z >> 27)).wrapping_mul(0x94d0_49bb_1331_11eb);
     z ^= z >> 31;
-    z | 1
+    // non-zero, but with an arbitrary PRESENT bit: a stale word of a recycled frame need not look present
+    if z == 0 { 1 } else { z }
 }
 
 pub struct Pool {
